@@ -770,4 +770,24 @@ theorem spec_readTerm_eof (c : SCfg) (sc : Scanner σ) (cu cu' : Cursor) (h : Sp
     · split at h <;> simp at h
       rw [← h]
 
+/-- a read_term that the specification lets fail with a syntax error (on a stream that is not past, so
+    no eof action interferes) leaves the cursor behind the bytes its reader consumed -/
+theorem spec_readTerm_syntax (c : SCfg) (sc : Scanner σ) (cu cu' : Cursor) (ht : c.typ = .text)
+    (hd : cu.delivered = false) (h : Spec.readTerm c sc cu = (.err .syntax, cu')) :
+    cu' = { cu with idx := cu.idx + (Spec.scan sc (c.bytes.length + 2) sc.init (c.bytes.drop cu.idx) 0).2 } := by
+  unfold Spec.readTerm at h
+  rw [pastAction_not_delivered _ _ hd] at h
+  simp only [ht, ne_eq, not_true_eq_false, if_false] at h
+  generalize Spec.scan sc (c.bytes.length + 2) sc.init (c.bytes.drop cu.idx) 0 = sp at h ⊢
+  obtain ⟨o, n⟩ := sp
+  cases o with
+  | none => simp at h
+  | some eo =>
+    cases eo with
+    | endOfFile => simp at h
+    | out ro =>
+      cases ro with
+      | term t => simp at h
+      | syntaxErr => simp at h; exact h.symm
+
 end PrologVerif.Stream
